@@ -29,8 +29,11 @@ def gen(rng, tier):
     for (dl, cm, ls), e in zip(asts, exp):
         rel = rng.random() < 0.4
         name = b"rel/dir/f.conf" if rel else b"/g/f.conf"
-        s = Scenario([gens.parse_cmd(0, name, e["bytes"], dl, cm), "getall 0", "path 0", "newini 1", "merge 2 0 1", "path 2"],
-                     tags=("relative" if rel else "absolute",))
+        cmds = [gens.parse_cmd(0, name, e["bytes"], dl, cm), "getall 0", "path 0", "newini 1", "merge 2 0 1", "path 2"]
+        if rng.random() < 0.3:
+            # the process moves elsewhere (where a file of the same name may exist) after the read: path and provenance stay
+            cmds += [trees.fsfile(b"/elsewhere/" + name.lstrip(b"/"), b"other=1\n"), "chdir " + vlib.enc(b"/elsewhere"), "path 0", "getall 0"]
+        s = Scenario(cmds, tags=("relative" if rel else "absolute",))
         s.expected = e; s.rel = rel
         res.append(s)
     # values of several lines in every shape the reader accepts (beyond the conventional grammar): quoted values
